@@ -11,7 +11,7 @@ OPS = {
 # oracle ops whose expected answer is a constant: the request carries the intended result, or the
 # law is evaluated on the real code alone; anything but these answers is an oracle failure
 CONST_OK = {"numlaws", "cmplaws", "containslaws", "keyorder", "tostrcheck", "jpexpect", "kpexpect", "jexpect",
-            "jproundtrip", "kproundtrip", "modes"}
+            "jproundtrip", "kproundtrip", "modes", "tj", "serdecheck", "sniffbig"}
 OK_ANSWERS = ("ok", "not-accepted", "not-applicable", "skip", "bad-path")
 
 
@@ -45,8 +45,8 @@ PROPS = {
     },
     "C10": {
         "panic_is_violation": True,
-        "proved": "for every byte string and every fuel the decoder model reaches no panic site; decode of a valid encoding consumes it exactly",
-        "missing": "UTF-8 theorem, prefix rejection, text fallback",
+        "proved": "for every byte string the decoder model returns ok or err (never a panic site, never out of fuel: C10_total); every string and key it returns is valid UTF-8 (C10_utf8); every proper prefix of a valid encoding is rejected and a valid encoding is consumed exactly (C10_prefix_rejected, C10_valid_decodes); every text shorter than 2^27 bytes whose first byte can start a JSON text (other than a space) is rejected by the binary decoder, so from_slice hands it to the text parser (C10_text_fallback); from_slice never panics",
+        "missing": "texts of 2^27 bytes or more (the header count of a text starting with '[' or '{' could then be satisfiable) are outside the text-fallback theorem",
         "assumptions": [],
     },
     "C05": {
@@ -76,7 +76,7 @@ PROPS = {
     "C14": {
         "panic_is_violation": True,
         "proved": "NEGATIONS with concrete witnesses (kernel-evaluated on the byte-level model of convert_to_comparable): the key is not an order embedding (string bytes vs depth markers), not injective (string prefix + control bytes; integers beyond 2^53), and separates -0.0 from 0. These are the known findings D14a/b/c.",
-        "missing": "the positive theorem on the restricted domain (string bytes >= 0x20, depth < 32, exactly representable numbers, no -0.0) is not proved yet; outside the three finding classes the property is decided by the keyorder oracle on the real code and by correspondence of the key bytes",
+        "missing": "positive theorems (C14_embedding_partial, C14_key_eq_iff_partial, C14_key_refines) hold on the restricted domain only: flat-enough documents whose string bytes exceed the depth markers that can follow them, numbers exactly representable as f64, no -0.0; C14_not_embedding_deep shows the restriction is needed; outside the finding classes the real code is decided by the keyorder oracle and by correspondence of the key bytes",
         "assumptions": ["documents are canonical encodings of good values", "nesting below 255 (depth + 1 overflows a u8 beyond that: see C20)"],
     },
     "C04": {
@@ -99,9 +99,9 @@ PROPS = {
     },
     "C08": {
         "panic_is_violation": True,
-        "proved": 'selector model: writers of the item modes only append (frame), index arithmetic exact and in range, arithmetic expressions are an error of the evaluator (no todo!()), scalar root evaluates as a scalar position',
-        "missing": 'refinement of find_positions against the tree-level evalPaths is not proved: decided by correspondence (model vs Rust) and the spec oracle (evalPaths on the decoded tree vs Rust) over paths drawn from the document',
-        "assumptions": ['documents are canonical encodings of good values'],
+        "proved": 'REFINEMENT of the byte-level selector (find_positions frontier, select_* walkers, filter dispatch, value collection, comparison, writers) against the tree-level denotation evalPaths, for every good document and every path AST the parser can build (suppPaths): all mode appends exactly the canonical encodings of the denoted items in document order with their end offsets (soundness for every fuel; completeness, no panic, and error iff the path has no meaning); first mode = first item; array mode = canonical array of the items; mixed rule; predicate paths = one boolean in every mode; path_exists / path_match exact; termination and fuel monotonicity; frame property of the writers; exact in-range index arithmetic',
+        "missing": 'suppPaths is a decidable over-approximation of what parse_json_path builds (checked on examples by the kernel, not proved of the parser); first/array/mixed modes have the soundness direction only; four hand-built AST shapes the parser cannot produce are outside (see DESIGN)',
+        "assumptions": ['documents are canonical encodings of good values; array/mixed: document below 2^28 bytes and fewer than 2^29 items'],
     },
     "C09": {
         "panic_is_violation": True,
@@ -126,5 +126,17 @@ PROPS = {
         "proved": "frame theorems, for every prior buffer content: Value::write_to_vec (Encoder with reserve_jentries/replace_jentry at absolute indices) appends exactly encodeSpec v; ArrayBuilder/ObjectBuilder build_into with nested builders append a prefix-independent image; delete_by_index, concat of arrays and array_distinct inherit it",
         "missing": "frame theorems for the remaining editors, build_array/build_object, the selector writers and convert_to_comparable (their models append by construction; tied by correspondence with non-empty prefixes)",
         "assumptions": [],
+    },
+    "C11": {
+        "panic_is_violation": True,
+        "proved": "for every text t sniffed as text with parse_value t = Ok v (v inside the field widths, fewer than 2^24 top-level members) and every other argument: each public function of functions.rs, modelled WITH its sniffing and its text branch (T.*), returns on t exactly what it returns on encodeSpec v = parse_value(t).to_vec(): generic theorems for the parse-encode-run shape with one and two document arguments in all four text/binary combinations (array_insert, object_insert, array_distinct/intersection/except/overlap, object_delete/pick, to_serde_json), and individual theorems through the C05/C06/C04 refinements for the functions with a tree implementation of the text branch (array_length, type_of, get_by_index/name/keypath, object_keys, as_null/bool/number/str, exists_all_keys, strip_nulls, delete_by_name, traverse_check_string, convert_to_comparable, path_exists, get_by_path*, compare in its three text cases, parse_lazy_value)",
+        "missing": "contains / concat (their text case goes through from_slice on BOTH arguments) and delete_by_index / delete_by_keypath text branches are decided by correspondence + the tj oracle only; D21: first byte of a valid array with >= 2^24 elements is 0x81.., which is_jsonb takes for text (C11_sniff_false_huge, known finding)",
+        "assumptions": ["text accepted by parse_value, not starting with a space, value inside the field widths"],
+    },
+    "C19": {
+        "panic_is_violation": True,
+        "proved": "numbers convert as the same u64 / i64 / f64 and non-finite floats are an error of the byte walker (C19_number_kinds); number -> serde -> number gives an equal number (C19_number_roundtrip)",
+        "missing": "the structural theorems (byte walker = tree conversion on every document; mutual inverse on trees) are not proved yet: decided by correspondence (model of the walker vs Rust) and by the serdecheck oracle on the real code (structure, member sets, number kinds, inverse, object-only variant, agreement with an independent strict parse of the rendering)",
+        "assumptions": ["finite numbers"],
     },
 }
